@@ -17,7 +17,7 @@ open YashModel YashModel.Redir YashModel.Proto
 def fileName (i : Nat) : String :=
   match i with
   | 0 => "in" | 1 => "out" | 2 => "err" | 3 => "a" | 4 => "b" | 5 => "m" | 6 => "n" | 7 => "d"
-  | 8 => "e" | 9 => "p" | _ => "tmp"
+  | 8 => "e" | 9 => "p" | 10 => "s" | _ => "tmp"
 
 def pathOf (s : String) : Option Nat :=
   match s with
@@ -50,7 +50,7 @@ def parseKind (s : String) : Option Kind :=
   | "special" => some .special | "colon" => some .colon | "regular" => some .regular
   | "func" => some .func | "brace" => some .brace | "notfound" => some .notFound
   | "empty" => some .empty | "exec" => some .exec | "paren" => some .paren
-  | "cmdexec" => some .commandExec | _ => none
+  | "cmdexec" => some .commandExec | "dot" => some .dot | "dotx" => some .dotMissing | _ => none
 
 /-- initial world and table: standard descriptors (read-write, appending), then the pre-opened ones -/
 def initial (nc : Bool) (lim : Option Nat) (pre : List String) : Option (World × FdTable) := do
